@@ -265,6 +265,13 @@ pub fn run_c14(sc: &C14Scenario) -> Outcome {
             });
         }
     }
+    // "keeps blocking work ... off the async thread": the async task never has
+    // to wait for the value's lock (creating, running closures and destroying
+    // all happen on blocking threads, which are the only ones that take it)
+    let waited: Vec<String> = sched::lock_waits().into_iter().filter(|i| sched::actor_kind(*i) != ActorKind::Blocking).map(sched::actor_name).collect();
+    if !waited.is_empty() {
+        s(|w| bad(w, "async-thread-waited-for-value-lock", format!("{} had to wait for the wrapped value's lock while a closure was holding it", waited[0])));
+    }
     let world = S.with(|c| c.borrow_mut().take()).unwrap();
     let mut violations = world.viol;
     let mut h = std::collections::hash_map::DefaultHasher::new();
